@@ -12,6 +12,7 @@ mod kcurve;
 mod kframe;
 mod kxform;
 mod kalign;
+mod kline;
 
 pub fn f(v: &Value) -> f64 {
     match v {
@@ -53,6 +54,8 @@ fn main() {
     } else if let Some(v) = kseries::run(&kernel, &a) {
         v
     } else if let Some(v) = kcurve::run(&kernel, &a) {
+        v
+    } else if let Some(v) = kline::run(&kernel, &a) {
         v
     } else if let Some(v) = kalign::run(&kernel, &a) {
         v
